@@ -170,7 +170,7 @@ def gen_cell(rseed: int, tier: str) -> Dict[str, Any]:
     cell = {
         "doc": doc, "doc_name": docs[doc]["name"], "text": docs[doc]["text"],
         "bom": g.random() < 0.5,
-        "ap": g.random() < 0.5, "rend": g.choice(["default", "tagged"]),
+        "ap": g.random() < 0.5, "rend": g.choice(["default", "tagged", "tagged", "bare"]),
         "chunk": f.choice([1, 2, 3, 7, 4096, 1 << 20]), "bufsize": f.choice([1, 2, 5, 16, 8192]),
         "default_encoding": f.choice(["ascii", "latin-1", "cp1252", "utf-8"]),
         "file_encoding_by_caller": f.choice(["utf8", "utf8", "utf8", "utf-8-sig", "latin-1", "cp1252", "utf-16"]),
@@ -250,12 +250,13 @@ def execute_cell(cell: Dict[str, Any], tmp: str) -> Dict[str, Any]:
         else:
             stats["fault:real-filesystem-run"] = 1
         kw: Dict[str, Any] = {"allow_properties": cell["ap"]}
-        if cell["rend"] == "tagged":
-            kw["sql_renderer"], kw["dbml_renderer"] = st["renderers"]["tagged"]
+        custom = cell["rend"] in ("tagged", "bare")
+        if custom:
+            kw["sql_renderer"], kw["dbml_renderer"] = st["renderers"][cell["rend"]]
         pos: Tuple[Any, ...] = ()
         if cell.get("positional"):
             # options passed positionally, in the documented order (allow_properties, sql_renderer, dbml_renderer)
-            pos = (cell["ap"],) + ((kw["sql_renderer"], kw["dbml_renderer"]) if cell["rend"] == "tagged" else ())
+            pos = (cell["ap"],) + ((kw["sql_renderer"], kw["dbml_renderer"]) if custom else ())
             kw = {}
             stats["fault:positional-options"] = 1
 
@@ -368,7 +369,7 @@ def execute_cell(cell: Dict[str, Any], tmp: str) -> Dict[str, Any]:
                 results[route] = ["other", type(res).__name__]
                 viol("route:not-a-database:" + route, {**ctx, "got": type(res).__name__})
                 continue
-            full = not (route in OPT_ROUTES and cell["rend"] == "tagged")
+            full = not (route in OPT_ROUTES and custom)
             dig, snap = E1.content_digest(res, full)
             results[route] = ["db", dig]
             if want[0] != "db":
@@ -379,7 +380,7 @@ def execute_cell(cell: Dict[str, Any], tmp: str) -> Dict[str, Any]:
                      {**ctx, "want": want[2 if full else 1], "got": dig, "got_summary": E1.summary(snap)})
                 continue
             if route in OPT_ROUTES:
-                wq = st["renderers"]["tagged"] if cell["rend"] == "tagged" else None
+                wq = st["renderers"][cell["rend"]] if custom else None
                 ok = res.allow_properties == cell["ap"]
                 if wq is not None:
                     ok = ok and res.sql_renderer is wq[0] and res.dbml_renderer is wq[1]
